@@ -585,7 +585,7 @@ def run_stage(prop, tier, seed, stage, rng):
     # spec -> code: every edge, on every build variant
     jobs = []
     # bound the work (and the memory) of one stage: beyond the cap, a seeded sample of the explored edges is replayed
-    cap = int(os.environ.get('VERIF_EDGE_CAP', '200000' if tier == QUICK else '300000'))
+    cap = int(os.environ.get('VERIF_EDGE_CAP', '150000'))
     out['edges_explored'] = len(mc['edges'])
     per_edge = 1 if stage.get('jobs_for') else max(1, len(stage['variants']))
     if len(mc['edges']) * per_edge > cap:
